@@ -1,6 +1,7 @@
 package main
 
 import (
+	"os"
 	"fmt"
 	"go/token"
 	"go/types"
@@ -32,6 +33,7 @@ type Root struct {
 	N     int  // static length for [N]T allocations (else -1)
 	Label string // provenance of the storage itself
 	ElemLabel string // provenance of what the stored elements may reference ("" = same as Label)
+	ElemOwn   string // provenance of the own storage of slices/maps nested in the elements ("" = same as ElemLabel)
 }
 
 type Step struct {
@@ -55,6 +57,8 @@ type Val struct {
 	Lab      string // provenance of a term value (what it may reference)
 	FLab     map[int]string // per-field provenance overrides for struct terms (deep)
 	FOwn     map[int]string // per-field provenance of the field's own storage (slices/maps)
+	Own      string         // provenance of storage owned by a term value (when it differs from Lab)
+	SubOf    bool           // slice view that stops before the end of its parent view (x[:k]): append writes in place
 }
 
 type mapIter struct {
@@ -129,6 +133,7 @@ type Exec struct {
 	errors   []string
 	prov     *provCtx
 	curPC    Term
+	curPos   token.Pos
 	globals  map[*ssa.Global]*Root
 	typeTags map[string]int
 	externals map[string]bool
@@ -296,6 +301,52 @@ func elemLabel(r *Root) string {
 	return r.Label
 }
 
+// ownOf: provenance of the storage directly owned by a value (its backing array / map / the
+// slices held in its struct fields), as opposed to what it may reference through interfaces.
+func ownOf(v Val) string {
+	switch v.K {
+	case vSlice, vMap:
+		if v.R != nil {
+			return joinLabel(v.R.Label, elemOwn(v.R))
+		}
+	case vTerm:
+		if !structSorts[v.T.Sort] {
+			// interface and scalar values own no slice storage directly
+			return "fresh"
+		}
+		if v.FOwn != nil {
+			l := "fresh"
+			for _, x := range v.FOwn {
+				l = joinLabel(l, x)
+			}
+			// fields without an override keep the value's general provenance
+			if v.Lab != "" && len(v.FOwn) == 0 {
+				l = joinLabel(l, v.Lab)
+			}
+			return l
+		}
+		if v.Own != "" {
+			return v.Own
+		}
+		if structSorts[v.T.Sort] {
+			return labelOf(v)
+		}
+		// interface and scalar values own no slice storage directly
+		return "fresh"
+	}
+	return "fresh"
+}
+
+// structSorts: sorts of struct datatypes (values that directly contain slice/map fields).
+var structSorts = map[Sort]bool{}
+
+func elemOwn(r *Root) string {
+	if r.ElemOwn != "" {
+		return r.ElemOwn
+	}
+	return r.Label
+}
+
 func plainLabel(l string) string {
 	return strings.TrimPrefix(l, "spare:")
 }
@@ -329,6 +380,10 @@ func (e *Exec) wrapOwn(st *State, t Term, deep, own string) Val {
 	if own != "" && v.R != nil {
 		v.R.Label = own
 		v.R.ElemLabel = deep
+		v.R.ElemOwn = own
+	}
+	if own != "" && v.K == vTerm {
+		v.Own = own
 	}
 	return v
 }
@@ -458,6 +513,11 @@ func (e *Exec) load(st *State, a Val, pos token.Pos) Val {
 			if fl, ok := cv.FLab[a.Path[0].Field]; ok {
 				lab = fl
 				own = cv.FOwn[a.Path[0].Field]
+			} else if cv.Own != "" {
+				own = cv.Own
+				if cv.Lab != "" {
+					lab = cv.Lab
+				}
 			} else if cv.Lab != "" {
 				lab = cv.Lab
 			} else {
@@ -477,7 +537,11 @@ func (e *Exec) load(st *State, a Val, pos token.Pos) Val {
 			panic("load: field step on array root")
 		}
 		t := App(r.Elem, "select", arr, a.Path[0].Index)
-		return e.wrap(st, e.project(t, r, a.Path[1:]), plainLabel(elemLabel(r)))
+		v := e.wrapOwn(st, e.project(t, r, a.Path[1:]), plainLabel(elemLabel(r)), elemOwn(r))
+		if v.K == vTerm {
+			v.Own = elemOwn(r)
+		}
+		return v
 	}
 	panic("load: bad root kind")
 }
@@ -541,6 +605,7 @@ func (e *Exec) store(st *State, a Val, v Val, pos token.Pos) {
 		if cv.K == vTerm && a.Path[0].IsField && len(a.Path) == 1 {
 			// strong update of one field: keep per-field provenance
 			nv := labVal(e.name("c_"+r.Name, nt), cv.Lab)
+			nv.Own = cv.Own
 			nv.FLab = map[int]string{}
 			for k, l := range cv.FLab {
 				nv.FLab[k] = l
@@ -562,6 +627,10 @@ func (e *Exec) store(st *State, a Val, v Val, pos token.Pos) {
 		return
 	}
 	if r.Kind == 1 {
+		if os.Getenv("JDVC_DEBUG_SPARE") != "" && ownOf(v) != "fresh" {
+			fmt.Fprintf(os.Stderr, "STORE-OWN at %s into %s#%d: ownOf=%s kind=%d sort=%s lab=%s own=%s\n", e.posStr(pos), r.Name, r.ID, ownOf(v), v.K, v.T.Sort, v.Lab, v.Own)
+		}
+		r.ElemOwn = joinLabel(elemOwn(r), ownOf(v))
 		r.ElemLabel = joinLabel(elemLabel(r), plainLabel(labelOf(v)))
 		arr := st.mem[r]
 		if len(a.Path) == 0 {
@@ -686,11 +755,13 @@ func (e *Exec) mergeVals(out *State, sts []*State, vs []Val, conds []Term, name 
 		}
 		if sameRoot && vs[0].K == vSlice {
 			off, ln := vs[len(vs)-1].Off, vs[len(vs)-1].Len
+			sub := vs[len(vs)-1].SubOf
 			for i := len(vs) - 2; i >= 0; i-- {
 				off = Ite(conds[i], vs[i].Off, off)
 				ln = Ite(conds[i], vs[i].Len, ln)
+				sub = sub || vs[i].SubOf
 			}
-			return Val{K: vSlice, R: vs[0].R, Off: off, Len: ln, S: vs[0].S}
+			return Val{K: vSlice, R: vs[0].R, Off: off, Len: ln, S: vs[0].S, SubOf: sub}
 		}
 		if sameRoot {
 			return vs[0]
@@ -731,11 +802,17 @@ func (e *Exec) mergeVals(out *State, sts []*State, vs []Val, conds []Term, name 
 		}
 		deep := labelOf(vs[0])
 		own := vs[0].R.Label
+		eown := elemOwn(vs[0].R)
 		for _, v := range vs[1:] {
 			deep = joinLabel(deep, labelOf(v))
 			own = joinLabel(own, v.R.Label)
+			eown = joinLabel(eown, elemOwn(v.R))
 		}
-		return e.wrapOwn(out, e.name("j_"+name, t), deep, own)
+		nv := e.wrapOwn(out, e.name("j_"+name, t), deep, own)
+		if nv.R != nil {
+			nv.R.ElemOwn = eown
+		}
+		return nv
 	case vAddr, vClo, vNone, vIter:
 		e.fail("merge of differing address/closure values for %s", name)
 		return vs[0]
